@@ -1,5 +1,5 @@
 """Generic nets, instantiated per property on the functions that property
-depends on (rule ids Cxx.G1 .. Cxx.G7).
+depends on (rule ids Cxx.G1 .. Cxx.G8).
 
 The rules of cXX.py decide clauses somebody wrote down for one function.  The
 adversarial rounds (DESIGN 8) showed a second population of breaking changes
@@ -25,6 +25,7 @@ consumes.
   G5  memo tables in loops        -- the key determines the stored value
   G6  element decides for all     -- fixed element of an iterated collection in a guard
   G7  array as truth value        -- attribute bound to an array by every definition, bare in a test
+  G8  process-level state         -- memoisation, module-level containers written (also via attribute / local alias)
 """
 import ast
 import json
@@ -649,6 +650,7 @@ def run(ctx, prop):
     g5(ctx, prop, rel, prop + '.G5')
     g6(ctx, prop, rel, prop + '.G6')
     g7(ctx, prop, rel, prop + '.G7')
+    g8(ctx, prop, rel, prop + '.G8')
     ctx.decided.append(
         'G1-G4 generic nets over the functions this property depends on '
         '(%d, closure of %d entry functions under resolved callees): no '
@@ -658,7 +660,8 @@ def run(ctx, prop):
         'collection; no column-wise sort of a record table; every memo table '
         'filled inside a loop is keyed by everything its values depend on; '
         'no decision about a collection is taken from one fixed element; no '
-        'array-valued attribute is used as a truth value'
+        'array-valued attribute is used as a truth value; no memoisation or '
+        'module-level container written by package functions'
         % (len(rel), len(seeds)))
 
 
@@ -1185,3 +1188,39 @@ def g7(ctx, prop, rel, rule):
     ctx.ok(rule, 'dassh', None, '%d truth tests of classes with array-valued '
            'attributes examined; synthetic positive/negative example decided'
            % n)
+
+
+# ---------------------------------------------------------------------------
+# G8: nothing survives in the process from one object / model to the next
+
+def g8(ctx, prop, rel, rule):
+    """Memoising decorators, functions writing module-level containers
+    (directly, through a local or through an attribute bound to the container
+    itself), rebinding of module globals, mutated mutable defaults: the scan
+    of C16.R4, attributed by function scope."""
+    from . import c16
+    n = 0
+    for m in ctx.repo.modules.values():
+        if m.name.startswith('dassh.py4c'):
+            continue
+        for fi, node, what in c16._r4_scan(m):
+            n += 1
+            # a memoised function is shared state for everything that calls it
+            scope = {fi.full}
+            if 'memoised' in what:
+                g, _ = _call_graph(ctx.repo)
+                scope |= {f for f, outs in g.items() if fi.full in outs}
+            if scope & rel:
+                ctx.violation(
+                    rule, fi, node,
+                    '%s %s: every object built later in the process (another '
+                    'assembly type, the next time point, the next Reactor) '
+                    'sees what earlier ones left there' % (fi.qual, what),
+                    key='%s | process state %s' % (
+                        fi.full, ' '.join(src(node).split())[:60]))
+    pm = Module('dassh._positive', '<positive>', 'dassh/_positive.py',
+                c16.R4_POSITIVE)
+    if len(c16._r4_scan(pm)) != 4:
+        raise AnalysisError('%s positive example' % rule)
+    ctx.ok(rule, 'dassh', None, '%d process-state sites package-wide; '
+           'synthetic positive example (4 hits) detected' % n)
